@@ -111,7 +111,7 @@ def escape_obligations(ctx, rule, repo, entry, tolerant, allowed_families, what)
     return n
 
 
-def g_obligations(ctx, rule_prefix, repo, entries, rules=('G1', 'G2', 'G3', 'G4', 'G5', 'G6', 'G7', 'G9', 'G10', 'G11', 'G12', 'G14', 'G15', 'G16')):
+def g_obligations(ctx, rule_prefix, repo, entries, rules=('G1', 'G2', 'G3', 'G4', 'G5', 'G6', 'G7', 'G9', 'G10', 'G11', 'G12', 'G14', 'G15', 'G16', 'G17')):
     """REFUTED obligations for crash constructs in functions reachable from `entries`; one HOLDS
     obligation per rule summarising the scan."""
     prog = program(repo)
@@ -164,6 +164,8 @@ G_TEXT = {
     'G11': 'G11: standard-library calls that raise for part of their domain (unicodedata.name without '
            'default) are given a default or are inside a handler for that exception',
     'G16': 'G16: a value the code itself treats as possibly a dict/list/set is never used as a dictionary key',
+    'G17': 'G17: a literal format string names no keyword and numbers no positional argument that its .format() call does '
+           'not pass (KeyError / IndexError while an error message is being built)',
     'G15': 'G15: the result of str.find()/rfind() is compared with -1 (or 0) on every path before it is used as a '
            'position',
     'G14': 'G14: a local bound to a lookup with a literal default (pop/get/getattr) is only used through '
@@ -173,6 +175,6 @@ G_TEXT = {
 }
 
 
-def declare_g(ctx, rules=('G1', 'G2', 'G3', 'G4', 'G5', 'G6', 'G7', 'G9', 'G10', 'G11', 'G12', 'G14', 'G15', 'G16')):
+def declare_g(ctx, rules=('G1', 'G2', 'G3', 'G4', 'G5', 'G6', 'G7', 'G9', 'G10', 'G11', 'G12', 'G14', 'G15', 'G16', 'G17')):
     for r in rules:
         ctx.rule(r, G_TEXT[r], 1)
